@@ -412,7 +412,7 @@ func run(c *props.Ctx) {
 		if cfg.G == scaled {
 			d = dScaled
 		}
-		res := seq.Explore(s, seq.Options{Depth: d, Deadline: c.Deadline, MaxStates: 2000000})
+		res := seq.Explore(s, seq.Options{Depth: d, Deadline: c.Deadline, MaxStates: 2000000, Classify: func(w string) string { return signature(cfg, w) }})
 		c.R.States += int64(res.States)
 		c.R.Transitions += res.Transitions
 		c.R.Evaluations += res.Transitions
